@@ -25,6 +25,7 @@ class Script:
 
 
 COUNT = dict(rot=0, two=0)
+VIOL = []
 _rot = bbt.TreeNode._rotate
 _dis = bbt.TreeNode.discard
 
@@ -57,6 +58,11 @@ def history(rnd, nops):
         k = rnd.randrange(U)
         return (k // 4, k % 4) if pair else k
     ops = []
+    if rnd.random() < 0.25:
+        # the constructor form DrawSet(including[, excluding]), with repeated and excluded elements
+        inc = [key() for _ in range(rnd.randint(0, 12))]
+        exc = None if rnd.random() < 0.5 else [key() for _ in range(rnd.randint(0, 4))]
+        ops.append(('init', inc, exc))
     for _ in range(nops):
         r = rnd.random(); k = key()
         if r < pa: ops.append(('add', k))
@@ -67,7 +73,7 @@ def history(rnd, nops):
         elif r < pa + 0.50: ops.append(('iter',))
         else: ops.append(('draw',))
     if rnd.random() < 0.3:   # drain to empty, draw on empty, refill
-        ks = sorted({o[1] for o in ops if len(o) > 1}, key=enc)
+        ks = sorted({o[1] for o in ops if len(o) > 1 and o[0] != 'init'}, key=enc)
         ops += [('discard', k) for k in ks] + [('draw',), ('len',), ('add', ks[0] if ks else 1), ('add', ks[-1] if ks else 0), ('draw',)]
     return ops
 
@@ -77,7 +83,29 @@ def execute(ops, rnd):
     ds = DrawSet(); sc = Script(rnd); bbt.rng = sc
     COUNT['rot'] = COUNT['two'] = 0
     inp = ["reset"]; exp = ["-"]
+    tup = lambda x: tuple(x) if isinstance(x, list) else x
     for op in ops:
+        if op[0] == 'init':
+            # the elements reach the tree through add(), in the iteration order of a Python set: observe that order
+            inc = [tup(x) for x in op[1]]; exc = None if op[2] is None else [tup(x) for x in op[2]]
+            seen = []
+            orig_add = DrawSet.add
+
+            def rec(self, e):
+                orig_add(self, e); seen.append((e, dump(self._root)))
+            DrawSet.add = rec
+            try:
+                ds = DrawSet(inc, exc)
+            finally:
+                DrawSet.add = orig_add
+            for (e, dmp) in seen:
+                inp.append(f"add {enc(e)}"); exp.append(dmp)
+            want = set(inc) - set(exc or [])
+            inp.append("len"); exp.append(f"{len(ds)} empty={'true' if ds.empty() else 'false'}")
+            inp.append("iter"); exp.append("[" + ", ".join(str(enc(x)) for x in ds) + "]")
+            if sorted(map(enc, ds)) != sorted(map(enc, want)) or len(ds) != len(want):
+                VIOL.append(f"DrawSet({inc}, {exc}) holds {[enc(x) for x in ds]} (len {len(ds)}), the set is {sorted(map(enc, want))}")
+            continue
         op = tuple(tuple(x) if isinstance(x, list) else x for x in op)
         try:
             if op[0] == 'add':
@@ -155,4 +183,4 @@ if __name__ == '__main__':
                               key=None if keep_hist else hash(json.dumps(ops))))
             nlines += len(i)
             fi.write("\n".join(i) + "\n"); fe.write("\n".join(e) + "\n")
-    json.dump(dict(mode=mode, args=sys.argv[4:], index=index), open(os.path.join(out, 'index.json'), 'w'))
+    json.dump(dict(mode=mode, args=sys.argv[4:], index=index, viol=VIOL[:3]), open(os.path.join(out, 'index.json'), 'w'))
